@@ -22,13 +22,13 @@ except Exception as e: print('')")
   if ! (cd $S/repo && go build ./... >/dev/null 2>&1); then echo "$id-$k: DOES NOT BUILD"; rm -rf $S; continue; fi
   if [ -n "$tname" ]; then with=$(cd $S/repo && go test -count=1 -run "^$tname\$" $pkg 2>&1 | tail -1 | cut -c1-40); fi
   [ -n "$dpath" ] && mv $S/repo/$dpath $S/demo_test.go.keep 2>/dev/null
-  base=$(/verif/tools/baseline.sh $S/repo | head -1)
+  if [ -n "$SKIPBASE" ]; then base="skipped"; else base=$(/verif/tools/baseline.sh $S/repo | head -1); fi
   o=$($bin -repo $S/repo -verif $S/verif -property $id 2>&1)
   nv=$(echo "$o" | grep -c '^VIOLATION'); nu=$(echo "$o" | grep -c '^UNDECIDED')
   first=$(echo "$o" | grep -E "\[violated\]" | head -1 | cut -c1-160 | sed "s#$S/repo/##g")
   ok=0; case "$with" in *FAIL*|*panic*) case "$without" in ok*) case "$base" in *35/35*) ok=1;; esac;; esac;; esac
   echo "$id-$k: confirmed=$ok with=[$with] without=[$without] base=[$base] check=$id:$nv undecided=$nu $first"
-  if [ "$ok" = "1" ]; then
+  if [ "$ok" = "1" ] && [ -z "$SKIPBASE" ]; then
     out=/verif/seeded/$id-m$wave-$k; mkdir -p $out; cp $pf $out/patch.diff; [ -n "$demo" ] && cp $demo $out/$(basename $dpath)
     python3 - "$wt/_seed/meta.json" "p$k.patch" "$out/meta.json" "$id" "$nv" "$with" "$without" "$base" <<'PY'
 import json,sys
